@@ -707,8 +707,8 @@ def legal (w : World) : Op → Bool
   | .moveNew k => (w.live k).isSome && w.sts.length < 4
   | .moveAssign s d => s != d && s < w.sts.length && d < w.sts.length
   | .clear k => k < w.sts.length
-  | .setNumSubs k n => 1 ≤ n && n ≤ 4 && (match w.live k with | some st => st.pristine | none => false)
-  | .addSub k => match w.live k with | some st => st.pristine && st.subs.length < 4 | none => false
+  | .setNumSubs k n => 1 ≤ n && n ≤ 8 && (match w.live k with | some st => st.pristine | none => false)
+  | .addSub k => match w.live k with | some st => st.pristine && st.subs.length < 8 | none => false
   | .snap k | .diff k => (w.live k).isSome
   | .probeStale k s c => match w.live k with | some st => (st.ce? (s, c)).isSome | none => false
 
